@@ -71,7 +71,7 @@ func c15Run(r *kernel.Run, plan *c15Plan, concurrent bool, tag string) ([]c15Out
 	}
 	// the option slice the application passes: tape-chosen length and spare capacity
 	base := srv.Opts()
-	pad := []nodeenrollment.Option{nodeenrollment.WithCertificateLifetime(0), nodeenrollment.WithSkipStorage(false), nodeenrollment.WithNativeConns(false), nodeenrollment.WithTestErrorContains("")}
+	pad := []nodeenrollment.Option{nodeenrollment.WithCertificateLifetime(0), nodeenrollment.WithSkipStorage(false), nodeenrollment.WithNativeConns(false), nodeenrollment.WithTestErrorContains(""), nil}
 	for len(base) < plan.optLen {
 		base = append(base, pad[len(base)%len(pad)])
 	}
@@ -239,7 +239,7 @@ func c15Run(r *kernel.Run, plan *c15Plan, concurrent bool, tag string) ([]c15Out
 func propC15(r *kernel.Run) {
 	tp := r.Tape
 	plan := &c15Plan{backend: Pick2(tp, "inmem", "storeonce"), sw: tp.Draw(2) == 0, loader: tp.Draw(3) == 0,
-		optLen: tp.Draw(5), optSpare: tp.Draw(9), acceptors: tp.Range(2, 4)}
+		optLen: tp.Draw(13), optSpare: tp.Draw(9), acceptors: tp.Range(2, 4)}
 	n := tp.Range(2, 6)
 	var kinds []string
 	for i := 0; i < n; i++ {
